@@ -930,6 +930,14 @@ def run_prop(prop, qs, tier, seed, build, nrand_quick=40, nrand_thorough=600, wh
         # the same clause for assemblies (2..6 panels) and stiffened bays (skin, base, flange forces): Assembly.tla
         import c13
         c13.phase(rep, tier, seed, only={"fext"}, tag="c07asm")
+    if prop == "C03":
+        # geometric stiffness of assemblies (constant loads and from a state) and of stiffened bays: Assembly.tla
+        import c13
+        c13.phase(rep, tier, seed, only={"kG0", "kGc", "place:kG0", "stiff:kG0", "parts:kG0"}, tag="c03asm")
+    if prop == "C04":
+        # mass matrices of assemblies and stiffened bays (placement, derived stiffener internals, parts law): Assembly.tla
+        import c13
+        c13.phase(rep, tier, seed, only={"kM", "place:kM", "stiff:kM", "parts:kM", "b1dmass"}, tag="c04asm")
     if prop == "C08":
         # assembly level: fint and kT add the connection force / stiffness and slice the global state per panel
         import c13
